@@ -127,6 +127,12 @@ func (h *hstate) del(s *c05x.DeleteStep) {
 	s.Op, s.Pre, s.FhPre = "delete", c05x.Dump(h.database), h.fh()
 	s.Height, s.ID = last.Header.Height, c05x.Hex(last.Header.ID)
 	s.Finalized = s.FhPre != nil && s.Height <= *s.FhPre
+	if s.Finalized && s.Enforce {
+		// Executer.deleteBlock: "block height %d cannot be deleted. Height %d is already finalized"
+		s.DiffFound, s.Err, s.Panic, s.TempIDs, s.TempOK = false, c05x.Str("finalized"), "", nil, nil
+		s.Post, s.TipAfter = c05x.Dump(h.database), h.tip()
+		return
+	}
 	s.DiffFound, s.Err, s.Panic, s.TempIDs, s.TempOK = false, nil, "", nil, nil
 	lastEnc := last.Encode()
 	site := "Get"
@@ -224,7 +230,7 @@ func runHist(r *hx.Rng, in *c05x.HistIn) (rec c05x.HistRec) {
 		for i, n := 0, 4+r.Intn(9); i < n; i++ {
 			tip := h.tipBlock()
 			if r.Intn(100) >= 55 && (tip.Header.Height > g || r.Intn(4) == 0) {
-				s := &c05x.DeleteStep{SaveTemp: r.Bool()}
+				s := &c05x.DeleteStep{SaveTemp: r.Bool(), Enforce: r.Intn(100) < 88}
 				h.del(s)
 				rec.Steps = append(rec.Steps, s)
 				continue
@@ -252,7 +258,12 @@ func runHist(r *hx.Rng, in *c05x.HistIn) (rec c05x.HistRec) {
 			s.Staged = c05x.GenStaged(r, database)
 			if cur := h.fh(); cur != nil {
 				if s.Fh = *cur; height > *cur && r.Intn(4) == 0 {
-					s.Fh = *cur + 1 + uint32(r.Intn(int(height-*cur)))
+					// finality usually lags behind the tip; sometimes the new block finalizes itself
+					if hi := height - 1; hi > *cur && r.Intn(4) != 0 {
+						s.Fh = *cur + 1 + uint32(r.Intn(int(hi-*cur)))
+					} else {
+						s.Fh = *cur + 1 + uint32(r.Intn(int(height-*cur)))
+					}
 				}
 			}
 			h.apply(s, block, events)
